@@ -126,6 +126,27 @@ func runAllYaegi(srcs []string) []string {
 	return res
 }
 
+// goBatch compiles and runs one batch; when the toolchain fails on the batch as a whole (an internal compiler
+// error is not attributed to a package by common.RunGoBatch) the batch is halved until the culprit is alone.
+func goBatch(srcs []string) []string {
+	out := make([]string, len(srcs))
+	gr, err := common.RunGoBatch(srcs, 20*time.Second)
+	if err == nil {
+		for i := range srcs {
+			out[i] = goObs(gr[i])
+		}
+		return out
+	}
+	if len(srcs) == 1 {
+		out[0] = "toolchain-failure:" + strings.ReplaceAll(common.FirstLine(strings.TrimPrefix(err.Error(), "go build of batch failed: exit status 1\n")), " ", "_") + "~"
+		return out
+	}
+	h := len(srcs) / 2
+	copy(out, goBatch(srcs[:h]))
+	copy(out[h:], goBatch(srcs[h:]))
+	return out
+}
+
 func runAllGo(srcs []string, run *common.Run) []string {
 	res := make([]string, len(srcs))
 	const batch = 250
@@ -139,7 +160,6 @@ func runAllGo(srcs []string, run *common.Run) []string {
 		jobs = append(jobs, job{lo, hi})
 	}
 	var wg sync.WaitGroup
-	var mu sync.Mutex
 	sem := make(chan struct{}, 4) // `go build` is itself parallel
 	for _, j := range jobs {
 		wg.Add(1)
@@ -147,18 +167,9 @@ func runAllGo(srcs []string, run *common.Run) []string {
 		go func(j job) {
 			defer wg.Done()
 			defer func() { <-sem }()
-			gr, err := common.RunGoBatch(srcs[j.lo:j.hi], 20*time.Second)
-			if err != nil {
-				mu.Lock()
-				run.Errorf("go batch: %v", err)
-				mu.Unlock()
-				for i := j.lo; i < j.hi; i++ {
-					res[i] = "harness-error~"
-				}
-				return
-			}
+			out := goBatch(srcs[j.lo:j.hi])
 			for i := j.lo; i < j.hi; i++ {
-				res[i] = goObs(gr[i-j.lo])
+				res[i] = out[i-j.lo]
 			}
 		}(j)
 	}
@@ -423,9 +434,9 @@ func main() {
 			run.Res.Known = append(run.Res.Known, common.KnownReplay{ID: f.ID, Status: f.Status, What: f.What,
 				StillFails: im != rf, Detail: fmt.Sprintf("impl=%s ref=%s", clip(im), clip(rf))})
 		}
-		n := 1500
+		n := 5000
 		if run.Thorough() {
-			n = 14000
+			n = 40000
 		}
 		if v := os.Getenv("VERIF_C04_N"); v != "" {
 			fmt.Sscan(v, &n)
@@ -480,6 +491,10 @@ func main() {
 			run.Sample(map[string]interface{}{"prog": p, "impl": clip(o.impl), "model": clip(o.y), "spec": clip(o.g), "ref": clip(o.ref)}, 6)
 		}
 		input := replayT{Kind: "prog", Prog: &progs[i], Class: o.class}
+		if strings.HasPrefix(o.ref, "toolchain-failure:") {
+			run.Hit("toolchain-failure") // the Go compiler itself crashed on this program (seen: "internal compiler error: nilcheck still has 1 uses")
+			continue
+		}
 		if strings.HasPrefix(o.ref, "cerr:") || strings.HasPrefix(o.ref, "harness-error") {
 			run.Errorf("generated program does not compile: %s on %s", o.ref, line)
 			continue
@@ -619,7 +634,7 @@ func shrink(run *common.Run, drv *common.Driver, p Prog, class string) Prog {
 		found := false
 		for i := range ok {
 			o := outs[i]
-			if strings.HasPrefix(o.ref, "cerr:") || strings.HasPrefix(o.ref, "harness-error") || strings.HasPrefix(o.g, "ill") {
+			if strings.HasPrefix(o.ref, "cerr:") || strings.HasPrefix(o.ref, "harness-error") || strings.HasPrefix(o.ref, "toolchain-failure") || strings.HasPrefix(o.g, "ill") {
 				continue
 			}
 			if o.impl != o.ref && o.class == class {
